@@ -518,6 +518,10 @@ class PteraTransformer(NodeTransformer):
         new_body = []
 
         for external in sorted(self.external):
+            if not self.should_instrument(external):
+                # Nothing to report: keep the normal global lookup (and the
+                # normal NameError if the name is not defined when used)
+                continue
             new_body.extend(
                 self.make_interaction(
                     target=ast.Name(id=external, ctx=ast.Store()),
@@ -674,12 +678,17 @@ class PteraTransformer(NodeTransformer):
         After:
             x: int = _ptera_interact('x', int)
         """
-        return self.make_interaction(
+        stmts = self.make_interaction(
             node.target,
             self._ann(node.annotation),
             node.value and self.visit(node.value),
             orig=node,
         )
+        if node.value is None and not isinstance(stmts[0].value, ast.Call):
+            # A bare declaration that is not instrumented stays a declaration
+            # (it must not bind the variable to the ABSENT marker)
+            return node
+        return stmts
 
     def visit_Assign(self, node):
         """Rewrite an assignment statement.
